@@ -89,6 +89,7 @@ impl SessionPool {
     /// Get an idle session (returns the most recent one, i.e., largest seq)
     pub async fn get_idle_session(&self) -> Option<Arc<Session>> {
         loop {
+            vp!("pool.get_idle.loop");
             let mut sessions = self.idle_sessions.write().await;
 
             let seq = match sessions.last_key_value() {
@@ -279,6 +280,7 @@ impl SessionPool {
                     to_remove.push(*seq);
                 }
 
+                vp!("pool.reaper.before_close");
                 if !to_remove.is_empty() {
                     for seq in &to_remove {
                         if let Some(pooled) = sessions.remove(seq)
